@@ -997,6 +997,8 @@ def check_histories(ctx, name, scripts, variant="default"):
                     will_convert = st[0] == 6531 and f[3] not in ("-3", "-16", "-5") and not (-15 <= int(f[3]) <= -4) and int(f[3]) not in (-24, -25) and f[5] != "100" and f[5] != "010"
                     if f[3] == "-2" and not (f[0] == "e0" and f[1] == "2" and f[2] == "idn:#" + rc and f[4] == rc and f[5] == "000"):
                         ctx.S("IDN failure not contained: wrong return/code/message/flags", op="H " + sc, step=i, got=got)
+                    if will_convert and f[3] != "-2":
+                        ctx.S("the IDN library failed (injected code %s), yet the address is not rejected with the IDN error code" % rc, op="H " + sc, step=i, got=got)
                     if st[0] == 6531 and f[3] not in ("-2",) and f[5] == "001":
                         ctx.S("injected IDN failure, yet the domain was treated as valid", op="H " + sc, step=i, got=got)
             elif kind == "m":
